@@ -27,6 +27,8 @@ REQUIRED = {
         'datasets-with-storm-having-2+-candidate-rises': 5,
         'datasets-with-rise-having-2+-candidate-storms': 5,
         'datasets-with-rejection': 3,
+        'datasets-with-rise-having-3+-candidate-storms': 5,
+        'datasets-with-storm-having-3+-candidate-rises': 5,
         'datasets-with-displacement': 3,
         'datasets-with-exhausted-storm': 3,
         'one-sample-stretches': 3,
